@@ -42,7 +42,7 @@ var guardedBy = []guardSpec{
 
 func runC15(c *core.Ctx) {
 	runFixtures(c, "locks", "rangecb")
-	c.Explain("Linearizability, race freedom in general and deadlock freedom over interleavings are NOT decidable by a sound static argument available here (no pointer analysis, no scheduler model); the race detector and systematic schedule enumeration are other technique families. Two necessary conditions are decided: (R15.1) a guarded-by table (14 lines, each confirmed by reading): the blob's byte slice is touched through a receiver only with the blob mutex held; mirrored/handed-out counters and published flags only through sync/atomic; the serial transaction's result map only under its mutex; the lazily loaded record fields are written only inside the matching sync.Once.Do closure and read only after that Do has returned in the same function (or after the atomic published flag was seen). A shared blob touched without its guard IS a data race. (R15.2) check-then-act in one transaction: each mutating operation of the key-value FS issues the look-ups its decision depends on and the resulting Set on the same Transaction value — otherwise two goroutines can both pass the check (two Mkdir of one name both return nil, which no sequential order produces); (R15.3) in every method of the slice-backed blob the comparisons that justify a slice of the mutex-guarded buffer read its length while the mutex is held, in the critical section that slices — a bounds check made before locking lets a concurrent Truncate through another handle turn the guarded index into a panic; an unlocked pre-check that is repeated under the lock is accepted (no dispatch under the blob lock is R19.4, checked under C19); (R15.4) the in-memory store's transaction constructor holds the store mutex at every successful return — a read-only transaction that skips it sees a rename half done; (R15.5) an operation of the key-value FS that writes more than one record (Rename of a file: new name and old name) issues all its writes on one Transaction value, so no other goroutine's transaction can run between them; (R15.6) every plain map field of a struct that owns a mutex (mem, keyvalue, tar, mount, cache, pathlock) is accessed only with that mutex held, constructors excepted; (R15.7) no method of keyvalue.FS stores into a field of the FS value (no lock protects it and all goroutines share it). The property itself is not claimed. (R15.8/R15.9/R15.10) the analyses of R19.4 (no lock-taking call under a blob mutex), R19.3 (views share the mutex) and R14.3 (a value that came with an error is neither used nor kept) under this property. (R15.11) a handle grows its content by an amount read in another critical section (known finding); (R15.12 = R19.13) no blob method returns with its mutex held; (R15.13) in-memory records are immutable once stored. (R15.14) handles mutate the loaded content blob, never a View/Slice of it; (R15.15) sync.Map Range callbacks store no slice element at an index unbounded by len.")
+	c.Explain("Linearizability, race freedom in general and deadlock freedom over interleavings are NOT decidable by a sound static argument available here (no pointer analysis, no scheduler model); the race detector and systematic schedule enumeration are other technique families. Two necessary conditions are decided: (R15.1) a guarded-by table (14 lines, each confirmed by reading): the blob's byte slice is touched through a receiver only with the blob mutex held; mirrored/handed-out counters and published flags only through sync/atomic; the serial transaction's result map only under its mutex; the lazily loaded record fields are written only inside the matching sync.Once.Do closure and read only after that Do has returned in the same function (or after the atomic published flag was seen). A shared blob touched without its guard IS a data race. (R15.2) check-then-act in one transaction: each mutating operation of the key-value FS issues the look-ups its decision depends on and the resulting Set on the same Transaction value — otherwise two goroutines can both pass the check (two Mkdir of one name both return nil, which no sequential order produces); (R15.3) in every method of the slice-backed blob the comparisons that justify a slice of the mutex-guarded buffer read its length while the mutex is held, in the critical section that slices — a bounds check made before locking lets a concurrent Truncate through another handle turn the guarded index into a panic; an unlocked pre-check that is repeated under the lock is accepted (no dispatch under the blob lock is R19.4, checked under C19); (R15.4) the in-memory store's transaction constructor holds the store mutex at every successful return — a read-only transaction that skips it sees a rename half done; (R15.5) an operation of the key-value FS that writes more than one record (Rename of a file: new name and old name) issues all its writes on one Transaction value, so no other goroutine's transaction can run between them; (R15.6) every plain map field of a struct that owns a mutex (mem, keyvalue, tar, mount, cache, pathlock) is accessed only with that mutex held, constructors excepted; (R15.7) no method of keyvalue.FS stores into a field of the FS value (no lock protects it and all goroutines share it). The property itself is not claimed. (R15.8/R15.9/R15.10) the analyses of R19.4 (no lock-taking call under a blob mutex), R19.3 (views share the mutex) and R14.3 (a value that came with an error is neither used nor kept) under this property. (R15.11) a handle grows its content by an amount read in another critical section (known finding); (R15.12 = R19.13) no blob method returns with its mutex held; (R15.13) in-memory records are immutable once stored. (R15.14) handles mutate the loaded content blob, never a View/Slice of it; (R15.15) sync.Map Range callbacks store no slice element at an index unbounded by len. (R15.16) no Bytes() of a content blob is sliced with computed bounds; (R15.17) no transaction operation reaches an Unlock its function did not Lock.")
 	c.Assume("lock identity by access path; single receiver per method (no aliasing of two blobs in one method other than fresh results)")
 	c.RuleDoc("R15.1", "guarded-by table")
 	c.RuleDoc("R15.2", "check-then-act within one transaction")
